@@ -29,6 +29,29 @@ class Dur:
     def __int__(self):
         return int(self.ms // 1000)
 
+    def __add__(self, o):
+        if isinstance(o, T):
+            return T(o.ms + self.ms)
+        return Dur(self.ms + _ms(o))
+
+    __radd__ = __add__
+
+    def __sub__(self, o):
+        return Dur(self.ms - _ms(o))
+
+    def __rsub__(self, o):
+        return Dur(_ms(o) - self.ms)
+
+    def __mul__(self, k):
+        return Dur(self.ms * k)
+
+    __rmul__ = __mul__
+
+    def __lt__(self, o): return self.ms < _ms(o)
+    def __le__(self, o): return self.ms <= _ms(o)
+    def __gt__(self, o): return self.ms > _ms(o)
+    def __ge__(self, o): return self.ms >= _ms(o)
+
     def __repr__(self):
         return f'Dur({self.ms}ms)'
 
@@ -249,12 +272,12 @@ IP1, IP2 = ip_address('192.168.0.1'), ip_address('192.168.0.2')
 
 
 def conf_dict(dh_ike=('ecp256',), child_dh=(), mode='transport', ipsec_proto='esp', encr=('aes256', 'aes128'), lifetime=5,
-              dpd=60, ike_lifetime=900, extra_protect=False):
-    def protect(index, peer_port):
+              dpd=60, ike_lifetime=900, extra_protect=False, dh_ike_b=None, child_dh_b=None):
+    def protect(index, peer_port, cdh=child_dh):
         p = {'index': index, 'ip_proto': 'tcp', 'mode': mode, 'lifetime': lifetime, 'peer_port': peer_port,
              'ipsec_proto': ipsec_proto, 'encr': list(encr)}
-        if child_dh:
-            p['dh'] = list(child_dh)
+        if cdh:
+            p['dh'] = list(cdh)
         return p
     d = {
         'alice': {'my_addr': str(IP1), 'peer_addr': str(IP2),
@@ -263,8 +286,8 @@ def conf_dict(dh_ike=('ecp256',), child_dh=(), mode='transport', ipsec_proto='es
                   'protect': [protect(1, 0)]},
         'bob': {'my_addr': str(IP2), 'peer_addr': str(IP1),
                 'my_auth': {'id': 'bob@openikev2', 'psk': 'testing2'}, 'peer_auth': {'id': 'alice@openikev2', 'psk': 'testing'},
-                'dh': list(dh_ike), 'integ': ['sha256'], 'prf': ['sha256'], 'dpd': dpd, 'lifetime': ike_lifetime,
-                'protect': [protect(2, 23)]},
+                'dh': list(dh_ike_b or dh_ike), 'integ': ['sha256'], 'prf': ['sha256'], 'dpd': dpd, 'lifetime': ike_lifetime,
+                'protect': [protect(2, 23, child_dh_b if child_dh_b is not None else child_dh)]},
     }
     if extra_protect:
         d['alice']['protect'].append({'index': 3, 'ip_proto': 'udp', 'mode': mode, 'lifetime': lifetime, 'peer_port': 0,
@@ -297,9 +320,11 @@ class Endpoint:
 class Pair:
     """Alice (original initiator) and Bob (original responder) at IkeSa level"""
 
-    def __init__(self, **conf_kw):
+    def __init__(self, env_setup=None, **conf_kw):
         ik, cf = MODS['ikesa'], MODS['configuration']
         ENV.reset()
+        if env_setup is not None:
+            env_setup(ENV)
         self.confdict = conf_dict(**conf_kw)
         self.configuration = cf.Configuration([IP1, IP2], self.confdict)
         a = ik.IkeSa(is_initiator=True, peer_spi=b'\0' * 8, configuration=self.configuration.get_ike_configuration(IP1, IP2),
@@ -339,17 +364,27 @@ class Pair:
         return self.A.call(self.a.process_acquire, tsi, tsr, 1)
 
     def establish(self):
-        """full initial exchange; returns the four datagrams"""
-        m1 = self.init_req()
-        m2 = self.send('B', m1)
-        m3 = self.send('A', m2)
-        m4 = self.send('B', m3)
-        r = self.send('A', m4)
-        assert r is None, 'unexpected request after IKE_AUTH'
+        """full initial exchange (including COOKIE / INVALID_KE_PAYLOAD round trips); returns the datagrams"""
+        msgs = [self.init_req()]
+        to = 'B'
+        while True:
+            r = self.send(to, msgs[-1])
+            if r is None:
+                break
+            msgs.append(r)
+            to = 'A' if to == 'B' else 'B'
+            if self.b.state == MODS['ikesa'].IkeSa.State.DELETED and to == 'A':
+                # the responder ended (COOKIE / INVALID_KE_PAYLOAD): a fresh responder IKE_SA answers the retry
+                secret = self.b.cookie_secret
+                ik = MODS['ikesa']
+                self.b = ik.IkeSa(is_initiator=False, peer_spi=self.a.my_spi, my_addr=IP2, peer_addr=IP1,
+                                  configuration=self.configuration.get_ike_configuration(IP2, IP1), cookie_secret=secret)
+                self.B.obj = self.b
+            assert len(msgs) < 12
         S = MODS['ikesa'].IkeSa.State
         assert self.a.state == S.ESTABLISHED and self.b.state == S.ESTABLISHED, (self.a.state, self.b.state)
         assert len(self.a.child_sas) == 1 and len(self.b.child_sas) == 1
-        return m1, m2, m3, m4
+        return msgs
 
     def to_state(self, who, state_name):
         """drive endpoint `who` ('A' = original initiator, 'B' = original responder) natively into `state_name`.
@@ -382,13 +417,13 @@ class Pair:
         if st == S.DEL_CHILD_REQ_SENT:
             return E.call(me.process_expire, me.child_sas[0].inbound_spi, True)
         if st == S.DPD_REQ_SENT:
-            ENV.now = me.start_dpd_at + 1
+            ENV.now = me.start_dpd_at + 3600
             return E.call(me.check_dead_peer_detection_timer)
         if st == S.REK_IKE_SA_REQ_SENT:
-            ENV.now = me.rekey_ike_sa_at + 1
+            ENV.now = me.rekey_ike_sa_at + 10
             return E.call(me.check_rekey_ike_sa_timer)
         if st == S.DEL_IKE_SA_REQ_SENT:
-            ENV.now = me.delete_ike_sa_at + 1
+            ENV.now = me.delete_ike_sa_at + 3600
             return E.call(me.check_rekey_ike_sa_timer)
         if st in (S.DEL_AFTER_REKEY_IKE_SA_REQ_SENT, S.REKEYED):
             # `who` rekeys the IKE_SA; its peer answers; who -> DEL_AFTER_REKEY..., peer -> REKEYED
@@ -397,7 +432,7 @@ class Pair:
                 init, resp, IE, RE_name = peer, me, (self.B if who == 'A' else self.A), who
             else:
                 init, resp, IE, RE_name = me, peer, E, other
-            ENV.now = init.rekey_ike_sa_at + 1
+            ENV.now = init.rekey_ike_sa_at + 10
             req = IE.call(init.check_rekey_ike_sa_timer)
             res = self.send(RE_name, req)
             dele = self.send('A' if init is self.a else 'B', res)
@@ -556,7 +591,7 @@ class Ctl:
     def rekey_ike(self, ep, deliver_delete=False):
         """initiator `ep` rekeys its IKE_SA: controller entry -> REKEYED with the successor registered"""
         a = ep.obj
-        ENV.now = a.rekey_ike_sa_at + 1
+        ENV.now = a.rekey_ike_sa_at + 10
         req = ep.call(a.check_rekey_ike_sa_timer)
         ep.rekey_req = req
         res = self.dispatch(req)
